@@ -60,4 +60,32 @@ def denote : AVal → PyVal
   | .filetypes fts => .dict (fts.map (fun ft => (ft.ext, .eft ft)))
   | a => encToml a
 
+
+/-! ### the metadata block as the user guide describes it -/
+
+def indent4 (x : Str) : Str := ' ' :: ' ' :: ' ' :: ' ' :: x
+
+/-- `key: first value` followed by the further values, each indented by four spaces -/
+def encLines (key : Str) : List Str → List Str
+  | [] => []
+  | v :: r => (key ++ ':' :: ' ' :: v) :: r.map indent4
+
+def encBlock : List (Str × List Str) → List Str
+  | [] => []
+  | (k, vs) :: r => encLines k vs ++ encBlock r
+
+/-- a keyword: letters, digits, `_`, `-`, lower case, not starting with `-` -/
+def goodKey (k : Str) : Bool :=
+  match k with
+  | [] => false
+  | c :: _ => c != '-' && c != '.' && k.all (fun c => isKeyChar c && !isSpace c) && strip (lower k) == k
+
+/-- a first value: anything without surrounding blanks (may be empty) -/
+def goodVal (v : Str) : Bool := strip v == v
+/-- a further value line: not blank, no surrounding blanks -/
+def goodCont (v : Str) : Bool := strip v == v && !v.isEmpty
+
+def goodOpt (o : Str × List Str) : Bool :=
+  goodKey o.1 && (match o.2 with | [] => false | v :: r => goodVal v && r.all goodCont)
+
 end Ford.Settings
